@@ -312,7 +312,9 @@ def work_cli(task):
     os.makedirs(os.path.join(BUILD, "run"), exist_ok=True)
     shapes = ["(", ")", "1 2 )", "\"abc", "\"%( 1", "123foo", "08", "0x", "foo", "let A := 1; let A := 2;", "[", "?(", "1 || (",
               "if 1 then 2", "\"%( ) %)\"", "drop", "1 drop drop", "(1, 2) if ( == 2) then (drop drop) else ()", "1 \"a\" add",
-              "{", "|", "1 |A| 2", "let := 1;", "\\", "`", "'", "1 ; 2", "(1, drop drop)", "(1, 2, 3 over over over over)", "1 ?(drop drop)"]
+              "{", "|", "1 |A| 2", "let := 1;", "\\", "`", "'", "1 ; 2", "(1, drop drop)", "(1, 2, 3 over over over over)", "1 ?(drop drop)",
+              # a sub-expression that leaves fewer values than there are names to bind, on a stack that has values to spare
+              "7 let A := drop; A", "1 2 let A B := drop; A", "7 (drop == 7)", "(1, 2, 7 let A := drop; A)", "7 8 let A := drop drop; A"]
     for i in range(start, start + count):
         rnd = random.Random((seed << 32) ^ i ^ 0xC14C)
         q = shapes[i % len(shapes)]
@@ -536,7 +538,7 @@ def main(tier, seed):
     nh = 48 if tier == "quick" else 1500
     ev.merge(run_pool(work_history, [(seed, s_, 2) for s_ in range(0, nh, 2)]))
     ev.extra["parse_histories"] = nh
-    ncli = 81 if tier == "quick" else 81 * 4
+    ncli = 105 if tier == "quick" else 105 * 4
     ev.merge(run_pool(work_cli, [(seed, s, min(9, ncli - s)) for s in range(0, ncli, 9)]))
     # libFuzzer: the contract checks are inside the target.
     fuzz_s, fuzz_w = (25, 12) if tier == "quick" else (600, 16)
